@@ -825,6 +825,7 @@ func (thisListener *GruleV3ParserListener) ExitStringLiteral(ctx *grulev3.String
 	}
 	dec, err := unquoteString(ctx.GetText())
 	if err != nil {
+		thisListener.StopParse = true
 		thisListener.ErrorCallback.AddError(fmt.Errorf("error parsing quoted string (%s): %s", ctx.GetText(), err.Error()))
 
 		return
